@@ -16,6 +16,7 @@ torch.set_num_threads(1)
 from vlib import cb, cl, cn, co, cp, cq, cz, coq_eval_bools, coq_eval_print, exc_kind, load_corpus, shrink
 
 IMPORTS = "From PV Require Import C15.Model C15.Spec.\nLocal Open Scope Z_scope.\n"
+TOL = "(1 # 1000000000000)%Q"
 UNIT = 8  # metrics and thresholds are multiples of 1/8
 BASE = ["epoch", "es_resume_cd", "es_patience_cd", "rlr_resume_cd", "rlr_patience_cd", "lr", "train_met", "val_met"]
 TYPES = {"int": int, "str": str}
@@ -47,7 +48,8 @@ class _Session:
         from pydrobert.torch.training import TrainingStateController
 
         self.model = torch.nn.Linear(1, 1)
-        self.optim = torch.optim.SGD(self.model.parameters(), lr=case["dflt"])
+        # two parameter groups: the new rate must reach every one of them
+        self.optim = torch.optim.SGD([{"params": [self.model.weight]}, {"params": [self.model.bias]}], lr=case["dflt"])
         self.ctl = TrainingStateController(_params(case["P"]), os.path.join(d, "hist.csv"), os.path.join(d, "states"))
         for name, typ in case["decl"]:
             self.ctl.add_entry("u%d" % name, TYPES[typ])
@@ -225,7 +227,7 @@ def c_obs(o, decl):
 def tol_of(case):
     # multiplying by a power of two is exact in binary64, so every rate (also one re-read from the csv: the model rounds
     # the printed decimal to the nearest double, Model.b64) can be compared exactly; other factors to 1e-12
-    return "0%Q" if exact_case(case) else "(1 # 1000000000000)%Q"
+    return "0%Q" if exact_case(case) else TOL
 
 
 def exact_case(case):
@@ -249,7 +251,7 @@ def near_tie(out):
     return False
 
 
-def model_term(case, out, rnd="fmt5 b64", restarts=True):
+def model_term(case, out, rnd="fmt5 b64", restarts=True, tol=None):
     decl = case["decl"]
     try:
         if out["keys"] != list(range(len(out["cache"]))):
@@ -262,7 +264,7 @@ def model_term(case, out, rnd="fmt5 b64", restarts=True):
         rows = cl([c_crow(r) for r in out["csv"]])
     except (Bad, ValueError, ZeroDivisionError):
         return "false"
-    return "(check %s %s %s %s %s %s %s %s %s)" % (tol_of(case), rnd, c_params(case["P"]), c_decl(decl),
+    return "(check %s %s %s %s %s %s %s %s %s)" % (tol or tol_of(case), rnd, c_params(case["P"]), c_decl(decl),
                                                   cq(Fraction(case["dflt"])), c_steps(case["steps"], restarts),
                                                   obs, cache, rows)
 
@@ -284,6 +286,16 @@ def spec_term(case, out_plain):
 # ------------------------------------------------------------------------------------------
 # restart-vs-uninterrupted relation (the property's own statement) and the K4 signature
 # ------------------------------------------------------------------------------------------
+
+
+def _canon(out):
+    """numeric csv cells by value ('1' and '1.0' are the same rate)"""
+    def num(x):
+        try:
+            return str(Fraction(x))
+        except (ValueError, ZeroDivisionError):
+            return x
+    return dict(out, csv=[r[:5] + [num(x) for x in r[5:8]] + r[8:] for r in out["csv"]])
 
 
 def _strip(out):
@@ -445,11 +457,11 @@ def random_case(rng, stream="random"):
             kw = [[n, (rng.randint(-50, 10 ** rng.randint(0, 12)) if t == "int" else
                        "".join(rng.choice('ab ,"\'0-') for _ in range(rng.randint(0, 5))))] for n, t in decl]
             r = rng.random()
-            if r < 0.05:
+            if r < 0.015:
                 kw.pop(rng.randrange(len(kw)))
-            elif r < 0.10:
+            elif r < 0.03:
                 kw.insert(rng.randrange(len(kw) + 1), [rng.choice([6, 7]), 1])
-            elif r < 0.15:
+            elif r < 0.045:
                 j = rng.randrange(len(kw))
                 kw[j][1] = "zz" if isinstance(kw[j][1], int) else 5
             rng.shuffle(kw)
@@ -573,7 +585,7 @@ def run(chk, cases=None):
             if key not in plain_cache:
                 plain_cache[key] = run_impl(chk, pc, restarts=False)
             po = plain_cache[key]
-            if po != outs[i]:
+            if _canon(po) != _canon(outs[i]):
                 diffs.append((i, po))
         else:
             po = outs[i]
@@ -616,11 +628,11 @@ def run(chk, cases=None):
 
     # --- model disagreements ------------------------------------------------------------------
     if bad:
-        rep = coq_eval_bools(chk.workdir, IMPORTS, [model_term(cases[i], outs[i], rnd="Qred b64") for i in bad], tag="rep")
+        rep = coq_eval_bools(chk.workdir, IMPORTS, [model_term(cases[i], outs[i], rnd="Qred b64", tol=TOL) for i in bad], tag="rep")
         differs = coq_eval_bools(chk.workdir, IMPORTS,
-                                 [model_term(cases[i], outs[i], rnd="Qred b64") for i in range(len(cases)) if res[i]][:400], tag="rep2")
+                                 [model_term(cases[i], outs[i], rnd="Qred b64", tol=TOL) for i in range(len(cases)) if res[i]][:400], tag="rep2")
         chk.extra["agree_with_repaired_model"] = sum(rep)
-        if all(rep) and not diffs and not concrete and not all(differs):
+        if all(rep) and all(differs) and not diffs and not concrete:
             # the implementation now behaves like the model without print rounding on every case
             chk.notes.append("implementation agrees with the repaired model (no print rounding) on all cases")
             chk.extra["matches"] = "Model with rnd = Qred (repaired)"
